@@ -174,8 +174,10 @@ def oracle_regs(rng, n, R):
             "elasticity": lam / 2 * sum(J[c][c] for c in range(D)) ** 2
                           + mu / 4 * sum((J[j][k] + J[k][j]) ** 2 for j in range(D) for k in range(D)),
         }
-        for mode in ("fcb", "sobel", "prewitt", "central", "forward", "backward", None):
-            exact_everywhere = mode in ("fcb", None)
+        # 'bspline': the field is read as cubic B-spline coefficients; affine coefficients give the affine function
+        # itself (linear precision), so every analytic value holds at every evaluated point
+        for mode in ("fcb", "sobel", "prewitt", "central", "forward", "backward", "bspline", None):
+            exact_everywhere = mode in ("fcb", "bspline", None)
             mname = mode or "default"
             for fn in LOSSES:
                 R.tick("null-space/values")
@@ -307,6 +309,29 @@ def oracle_bspline(rng, n, R):
             R.fail("C17:bending_loss:bspline:raises", f"raises {type(e).__name__}: {str(e)[:140]}", **base)
 
 
+def oracle_bspline_modes(rng, n, R):
+    """every regulariser accepts mode='bspline' (output: one value per evaluated spline point, size (X - 3) * stride ...)"""
+    for it in range(n):
+        D = rng.choice([2, 3])
+        size = [rng.choice([6, 7, 8]) for _ in range(D)]
+        stride = rng.choice([1, 2])
+        u = rnd_field(rng, size)
+        for fn in LOSSES:
+            R.tick("bspline-modes")
+            kw = dict(first_parameter=1.0, second_parameter=0.5) if fn == "elasticity" else {}
+            try:
+                v = LOSSES[fn](u, mode="bspline", stride=stride, reduction="none", **kw)
+                ref = L.bending_loss(u, mode="bspline", stride=stride, reduction="none")
+                if v.shape != ref.shape:
+                    R.fail(f"C17:{fn}_loss:bspline:shape", f"output shape {list(v.shape)} differs from that of bending_loss {list(ref.shape)}",
+                           size=size, stride=stride)
+                if float(v.min()) < -1e-12:
+                    R.fail(f"C17:{fn}_loss:bspline:negative", "negative value", size=size, stride=stride)
+            except Exception as e:  # noqa
+                R.fail(f"C17:{fn}_loss:bspline:raises", f"mode='bspline' raises {type(e).__name__}: {str(e)[:140]}",
+                       size=size, stride=stride, u=u.reshape(-1).tolist())
+
+
 def oracle_lame(rng, n, R):
     def consts(lam, mu):
         return {"first": lam, "second": mu, "shear": mu, "poisson": lam / (2 * (lam + mu)), "young": mu * (3 * lam + 2 * mu) / (lam + mu)}
@@ -424,6 +449,7 @@ def oracle(p):
     R = Rec()
     oracle_regs(rng, n, R)
     oracle_bspline(rng, max(n // 2, 4), R)
+    oracle_bspline_modes(rng, max(n // 4, 3), R)
     oracle_lame(rng, max(n // 2, 4), R)
     oracle_ic(rng, max(n, 8), R)
     oracle_modules(rng, max(n // 2, 4), R)
